@@ -1001,7 +1001,7 @@ func init() {
 	register(&Info{Prop: "C14", Engine: ss, Level: "exploration", QuickS: 60, ThoroughS: 900, RealStub: real,
 		Rule:   "one evaluation = one seeded multi-task run with 1-2 writer tasks and 1-2 backup tasks: a backup begins a read transaction at a tape-chosen moment (optionally ages it while writers commit), copies it with WriteTo into a writer that yields to the scheduler on every Write call (or CopyFile, or WriteTo with WriteFlag) while writers keep committing, reusing pages, growing and remapping; the copy must have exactly Tx.Size() bytes, decode cleanly (all pages accounted for) to the model version of the backup's txid, open with the real code, dump equal and pass Tx.Check. distinct_nontrivial = distinct schedule fingerprints among runs with a commit and a pre-emption",
 		Assume: []string{"interleavings below hook granularity are not explored", "which meta slot wins in the copy is not asserted"}})
-	register(&Info{Prop: "C03", Engine: ss, Level: "exploration", QuickS: 60, ThoroughS: 900, RealStub: real,
-		Rule:   "one evaluation = one seeded multi-task run: 1-4 writer tasks (Update / Begin+Commit / rollback / failing / panicking bodies), readers, a Stats caller and sometimes a late Close; oracles: never two writer bodies at once, committed ids consecutive, every read of a writer equals the model built from its predecessors in id order plus its own writes, failed bodies leave no trace, porcupine linearizability of the (txid) history stamped with event sequence numbers, deadlock = no enabled task and no timer, Close returns only after open transactions finished. distinct_nontrivial as for C02",
+	register(&Info{Prop: "C03", Engine: altEngine{[]Engine{ss, ss, ss, batchsim{}}}, Level: "exploration", QuickS: 60, ThoroughS: 900, RealStub: real,
+		Rule:   "every fourth run index is the Batch arm (batchsim engine under the same scheduler and the fake clock): 1-8 tasks issue DB.Batch calls, plain Update callers compete, and in two thirds of these runs a task calls DB.Close while Batch calls are queued behind a MaxBatchDelay timer, running or still arriving; every call must return once the clock may advance (a call that never returns = lost wake-up), a nil return means its effect is committed exactly once (read after reopening), an error is the call's own or, after Close was invoked, ErrDatabaseNotOpen, and then nothing of the call is committed. The other run indices: one evaluation = one seeded multi-task run: 1-4 writer tasks (Update / Begin+Commit / rollback / failing / panicking bodies), readers, a Stats caller and sometimes a late Close; oracles: never two writer bodies at once, committed ids consecutive, every read of a writer equals the model built from its predecessors in id order plus its own writes, failed bodies leave no trace, porcupine linearizability of the (txid) history stamped with event sequence numbers, deadlock = no enabled task and no timer, Close returns only after open transactions finished. distinct_nontrivial as for C02",
 		Assume: []string{"interleavings below hook granularity are not explored", "race freedom is not decided by this arm (token scheduling orders everything)"}})
 }
